@@ -347,3 +347,41 @@ func StdBuiltins(w *World) {
 		return r, nil
 	}, nil)
 }
+
+// V2Builtins installs the reference versions of the v2 probe functions
+// (see drv.V2Fns): p, void, one, two, id.
+func V2Builtins(w *World) {
+	b := w.Builtins
+	argVal := func(in *Interp, a *rt.Node) (Value, *RErr) {
+		if a.K == rt.KNamed {
+			return in.operand(a.Kids[0])
+		}
+		return in.operand(a)
+	}
+	b["p"] = func(in *Interp, c *rt.Node) (Value, *RErr) {
+		var parts []string
+		var last Value = Void
+		for _, a := range c.Kids {
+			v, err := argVal(in, a)
+			if err != nil {
+				return nil, err
+			}
+			parts = append(parts, Canon(v))
+			last = v
+		}
+		in.W.Trace = append(in.W.Trace, "p("+strings.Join(parts, ",")+")")
+		return last, nil
+	}
+	b["void"] = func(in *Interp, c *rt.Node) (Value, *RErr) {
+		for _, a := range c.Kids {
+			if _, err := argVal(in, a); err != nil {
+				return nil, err
+			}
+		}
+		in.W.Trace = append(in.W.Trace, "void")
+		return Void, nil
+	}
+	b["one"] = func(in *Interp, c *rt.Node) (Value, *RErr) { return int64(1), nil }
+	b["two"] = func(in *Interp, c *rt.Node) (Value, *RErr) { return MultiT{V: []Value{int64(1), int64(2)}}, nil }
+	b["id"] = func(in *Interp, c *rt.Node) (Value, *RErr) { return argVal(in, c.Kids[0]) }
+}
